@@ -157,27 +157,30 @@ static void exec_c09(const Plan& p, Outcome& out) {
         for (auto& b : bufs) b.free();
         h = mix64(h ^ fnv1a(got.data(), got.size()));
       } else if (op.kind == "SerializeGiant") {
-        // one string whose 6n+35 reservation does not fit in 32 bits (n >= 715827877): sizes in the serializer must be 64-bit.
-        // ~1.4 GiB resident for a few seconds, once per batch and flavour; skipped without guard pages (sanitizer flavours)
+        // one string whose 6n+35 reservation does not fit in 32 bits (n >= 715827877) and whose quoted form does not fit in an
+        // int (> 2 GiB: the first half is control bytes, six output bytes each): every size on the way must be 64-bit.
+        // ~3.3 GiB resident for a few seconds, once per batch and flavour; skipped without guard pages (sanitizer flavours)
         if (!simmem::guarded()) { out.ops_executed++; out.op_hashes.push_back(h); continue; }
         size_t n = (size_t)715827877 + (size_t)op.A(0) % 4096;
+        size_t nc = (size_t)360000000 + (size_t)op.A(0) % 7;   // control bytes
         char* src = simmem::caller_raw(n);
-        memset(src, 'a', n);
-        src[n / 2] = '"'; src[n - 1] = '\n';
+        memset(src, 1, nc); memset(src + nc, 'a', n - nc);
+        src[n - 1] = '\n';
         {
           DSim d; d.SetString(src, n);
           WriteBuffer wb;
-          out.detail = "string of " + std::to_string(n) + " bytes";
+          out.detail = "string of " + std::to_string(n) + " bytes, " + std::to_string(nc) + " of them control bytes";
           SonicError e = d.Serialize(wb);
           if (e != kErrorNone) violate("model", "SerializeGiant:error", "serialising a " + std::to_string(n) + "-byte string failed");
           const char* o = wb.ToString();
-          size_t want_size = n + 2 + 2;   // quotes, one \" and one \n
-          bool ok = wb.Size() == want_size && o[0] == '"' && o[want_size - 1] == '"' && memcmp(o + 1, src, n / 2) == 0 && o[1 + n / 2] == '\\' && o[2 + n / 2] == '"' &&
-                    memcmp(o + 3 + n / 2, src + n / 2 + 1, n - n / 2 - 2) == 0 && o[want_size - 3] == '\\' && o[want_size - 2] == 'n';
+          size_t want_size = 1 + 6 * nc + (n - nc - 1) + 2 + 1;
+          bool ok = wb.Size() == want_size && o[0] == '"' && o[want_size - 1] == '"' && memcmp(o + 1, "\\u0001", 6) == 0 &&
+                    memcmp(o + 1, o + 7, 6 * (nc - 1)) == 0 &&                       // the escape repeats with period 6
+                    memcmp(o + 1 + 6 * nc, src + nc, n - nc - 1) == 0 && o[want_size - 3] == '\\' && o[want_size - 2] == 'n';
           if (!ok) violate("model", "SerializeGiant:bytes", "output of a " + std::to_string(n) + "-byte string is wrong (size " + std::to_string(wb.Size()) + ", expected " + std::to_string(want_size) + ")");
         }
         simmem::caller_free(src);
-        probe("c09_string_whose_reservation_exceeds_32_bits");
+        probe("c09_string_whose_reservation_exceeds_32_bits_and_output_exceeds_2GiB");
         h = mix64(h ^ n);
       } else if (op.kind == "SerializeFit") {
         // growth boundaries of the write buffer at every scale, without the tight-growth hook: the buffer starts with capacity
@@ -473,7 +476,7 @@ static void gen_c14(uint64_t seed, uint64_t run, const std::string& tier, Plan& 
 }
 
 static const Profile kC09 = {"C09", gen_c09, exec_c09,
-  "enumeration: run i takes string length n = i mod 161; for EVERY distance 0..70 (+96,128,200,1000,3000) between the end of the string and a PROT_NONE page, source placed accordingly and destination of exactly 6n+32+3 bytes ending at a guard page, each kernel available in the flavour (static; in the dispatch build also the sse and avx2 clones directly) is run with benign and hostile trailing bytes; contents are seeded (6 byte-class mixes; for n<=70 one special byte walking over every position); plus Serialize of string arrays into tight buffers, and (one run in six) a string of control bytes whose 6n+35 reservation ends within 48 bytes of cap, 1.5 cap or 2 cap of a write buffer of 64 bytes .. 5 MiB filled to 0/50/90 %; run 97 serialises one string of 715 827 877+ bytes (its 6n+35 reservation needs more than 32 bits). evaluations = runs; reach probe c09_quote_calls counts kernel executions; non-trivial = >=1 guarded placement fired; distinct = hash(op list, output digest)"};
+  "enumeration: run i takes string length n = i mod 161; for EVERY distance 0..70 (+96,128,200,1000,3000) between the end of the string and a PROT_NONE page, source placed accordingly and destination of exactly 6n+32+3 bytes ending at a guard page, each kernel available in the flavour (static; in the dispatch build also the sse and avx2 clones directly) is run with benign and hostile trailing bytes; contents are seeded (6 byte-class mixes; for n<=70 one special byte walking over every position); plus Serialize of string arrays into tight buffers, and (one run in six) a string of control bytes whose 6n+35 reservation ends within 48 bytes of cap, 1.5 cap or 2 cap of a write buffer of 64 bytes .. 5 MiB filled to 0/50/90 %; run 97 serialises one string of 715 827 877+ bytes, half of them control bytes (its 6n+35 reservation needs more than 32 bits, its quoted form more than 2 GiB). evaluations = runs; reach probe c09_quote_calls counts kernel executions; non-trivial = >=1 guarded placement fired; distinct = hash(op list, output digest)"};
 static const Profile kC14 = {"C14", gen_c14, exec_c14,
   "enumeration: run i takes length n = i mod 131 (one run in five 131..1330 and one in eighty up to 9300, with a mismatch in every 16-byte window); both operands at distances 0..40 (+64,500) from a PROT_NONE page (all pairs near the page, every third pair in the interior), mismatch at none/first/last/vector-boundary/random positions, bytes after the operands equal or different, each kernel of the flavour (dispatch build: sse and avx2 clones) judged against memcmp, plus API lookups (FindMember both overloads, HasMember, with and without map) on objects whose key bytes and probe keys end at guard pages. evaluations = runs; reach probe c14_compare_calls counts comparisons; distinct = hash(op list)"};
 static ProfileReg r09(&kC09), r14(&kC14);
